@@ -320,6 +320,15 @@ fn cmd_run(args: &[String]) -> i32 {
         if case.records.iter().map(|r| r.seq.len()).sum::<usize>() >= (1 << 20) {
             *probes.entry("input>=1MiB".to_string()).or_insert(0) += 1;
         }
+        if case.container.format == Format::Fastq && case.container.wrap > 0 && case.records.iter().any(|r| r.seq.len() > case.container.wrap) {
+            *probes.entry("fastq_multi_line".to_string()).or_insert(0) += 1;
+        }
+        if case.records.iter().map(|r| r.seq.len()).sum::<usize>() >= (4 << 20) && case.records.len() > 1 {
+            *probes.entry("input>=4MiB".to_string()).or_insert(0) += 1;
+        }
+        if case.records.iter().any(|r| r.seq.len() > (1 << 24)) {
+            *probes.entry("record>2^24_bases".to_string()).or_insert(0) += 1;
+        }
         if case.records.len() >= 10000 {
             *probes.entry("records>=10000".to_string()).or_insert(0) += 1;
         }
